@@ -596,7 +596,13 @@ def r22(ctx):
                 continue
             n += 1
             ctx.touch(fn)
-            guarded = fn.needs_one_of(x, [('this.m_protocol.isReadOnly()', False)])
+            ro = [('this.m_protocol.isReadOnly()', False)]
+            for nid, d, rhs, op, lhs in fn.assignments():
+                # a flag local that holds the answer
+                if op == 'init' and rhs is not None and d and fn.key(rhs) == 'this.m_protocol.isReadOnly()' and \
+                        not any(d2 == d and o2 != 'init' for n2, d2, r2, o2, l2 in fn.assignments()):
+                    ro.append((d.split(':')[-1], False))
+            guarded = fn.needs_one_of(x, ro)
             adds = [c for c in fn.calls('addRequest') if fn.block_of(c) is not None and
                     fn.reaches_point(fn.pos(x)[0], fn.pos(c), set(), start_idx=fn.pos(x)[1] + 1)]
             dels = [d for d in fn.all('CXXDeleteExpr') if fn.nodes[d].get('delt') == v.get('newt') and fn.block_of(d) is not None]
